@@ -19,7 +19,7 @@ static int items_done, items_expected, clients_done;
 static int max_readers_overlap;
 static int mainq_stop;
 static const char *const opnames[OP_N] = { "async", "barrier_async", "group_async", "sync", "barrier_sync",
-	"async_and_wait", "barrier_async_and_wait", "apply", "suspend", "activate", "pause" };
+	"async_and_wait", "barrier_async_and_wait", "apply", "suspend", "activate", "pause", "set_target_queue" };
 static const char *const qknames[QK_N] = { "serial", "concurrent", "global", "main", "workloop" };
 static char keys[4];   // addresses serve as queue-specific keys
 
@@ -34,7 +34,7 @@ static void gen_queues(void) {
 	if (nq > QMAX) nq = QMAX;
 	for (int i = 0; i < nq; i++) {
 		qnode *n = &Q[i]; memset(n, 0, sizeof *n);
-		n->target = -1; n->tree = -1; n->dom = -1; n->last_item = -1; n->dom_last_item = -1;
+		n->target = -1; n->tree = -1; n->dom = -1; n->last_item = -1; n->dom_last_item = -1; n->retarget_to = -1;
 		// pick a kind from the mask
 		int kinds[QK_N], nk = 0;
 		for (int k = 0; k < QK_N; k++) if (G->qkindmask & (1u << k)) {
@@ -67,6 +67,22 @@ static void gen_queues(void) {
 		if (q_serialish(n->kind) && n->target >= 0 && Q[n->target].dom < 0) n->dom = i;
 		snprintf(n->label, sizeof n->label, "q%d", i);
 	}
+	// C03: one active leaf queue (created by dispatch_queue_create, targeted by nobody) may be moved under another
+	// queue while it is in use; nobody blocks on it and its items do not block (the wait-for order of the trees
+	// would otherwise change under the program's feet)
+	if (G->retarget && g_chance(1, 3)) {
+		int rc[QMAX], nr = 0;
+		for (int i = 0; i < nq; i++) {
+			if ((Q[i].kind != QK_SERIAL && Q[i].kind != QK_CONC) || Q[i].target >= 0 || Q[i].inactive) continue;
+			int targeted = 0; for (int j = 0; j < nq; j++) if (Q[j].target == i) targeted = 1;
+			if (!targeted) rc[nr++] = i;
+		}
+		if (nr) {
+			int r = rc[g_n((uint32_t)nr)], tc[QMAX], nt = 0;
+			for (int i = 0; i < nq; i++) if (i != r && (Q[i].kind == QK_SERIAL || Q[i].kind == QK_CONC || Q[i].kind == QK_WORKLOOP) && !Q[i].inactive && Q[i].depth + 1 < G->max_qdepth) tc[nt++] = i;
+			if (nt) Q[r].retarget_to = tc[g_n((uint32_t)nt)];
+		}
+	}
 }
 
 static int new_item(qop *op, int client, int parent, int apply_index) {
@@ -92,6 +108,7 @@ static int pick_queue(const gctx *c, bool blocking) {
 			else if (Q[i].tree <= c->min_tree) continue;
 		}
 		if (blocking && Q[i].kind == QK_MAIN && c->from_q >= 0 && !G->main_tree) continue;
+		if (blocking && Q[i].retarget_to >= 0) continue;
 		cand[n++] = i;
 	}
 	if (!n) return -1;
@@ -113,6 +130,7 @@ static void gen_body(qop *op, gctx c) {
 	if (op->body == B_NEST) {
 		gctx cc = c; cc.parent_item = op->item; cc.from_q = op->q; cc.depth = c.depth + 1; cc.client = -1;
 		if (G->main_tree && Q[0].kind == QK_MAIN && Q[op->q].tree == 0) cc.noblock = 1;   // items of the main queue's tree never block
+		if (Q[op->q].retarget_to >= 0) cc.noblock = 1;   // nor do the items of a queue that is retargeted during the run
 		// items reached through a blocking submission keep their submitter's ordering constraint
 		cc.min_tree = Q[op->q].tree;
 		if (op_is_sync(op->kind) && c.min_tree > cc.min_tree) cc.min_tree = c.min_tree;
@@ -144,9 +162,9 @@ static bool gen_one(qop *op, gctx c) {
 	if (op->kind == OP_SUSPEND) {
 		// candidates: non-global, non-main, non-workloop queues
 		int cand[QMAX], n = 0;
-		for (int i = 0; i < nq; i++) if ((Q[i].kind == QK_SERIAL || Q[i].kind == QK_CONC) && (!Q[i].inactive || G->suspend_inactive)) cand[n++] = i;
+		for (int i = 0; i < nq; i++) if ((Q[i].kind == QK_SERIAL || Q[i].kind == QK_CONC) && (!Q[i].inactive || G->suspend_inactive) && Q[i].retarget_to < 0) cand[n++] = i;
 		if (!n) { op->kind = OP_PAUSE; op->depth = 1; return true; }
-		op->q = (c.from_q >= 0 && (Q[c.from_q].kind == QK_SERIAL || Q[c.from_q].kind == QK_CONC) && !Q[c.from_q].inactive && g_chance(70, 100)) ? c.from_q : cand[g_n((uint32_t)n)];
+		op->q = (c.from_q >= 0 && (Q[c.from_q].kind == QK_SERIAL || Q[c.from_q].kind == QK_CONC) && !Q[c.from_q].inactive && Q[c.from_q].retarget_to < 0 && g_chance(70, 100)) ? c.from_q : cand[g_n((uint32_t)n)];
 		op->depth = g_chance(15, 100) ? g_range(1, G->suspend_depth_max) : g_range(1, 3);
 		op->body_arg = (int)g_n(3);   // 0: resume inline, 1: resume from an async item on a global queue, 2: inline
 		gctx cc = c; cc.noblock = 1; cc.depth = c.depth + 1;
@@ -158,6 +176,7 @@ static bool gen_one(qop *op, gctx c) {
 	if (op->q < 0) { op->q = 0; op->kind = OP_PAUSE; op->depth = 1; return true; }
 	if (Q[op->q].kind == QK_WORKLOOP && (op->kind == OP_SYNC || op->kind == OP_BARRIER_SYNC || op->kind == OP_APPLY)) op->kind = OP_AAW;
 	if (Q[op->q].kind == QK_MAIN && op->kind == OP_APPLY) op->kind = OP_ASYNC;
+	if (Q[op->q].retarget_to >= 0 && op->kind == OP_APPLY) op->kind = OP_ASYNC;
 	if (op->kind == OP_APPLY) {
 		int ncpu = sim_k.ncpu;
 		int ns[] = { 0, 1, 2, 3, 5, 9, ncpu > 1 ? ncpu - 1 : 1, ncpu, ncpu + 1, 17, 64, 1000 };
@@ -239,6 +258,17 @@ static void gen_program(void) {
 		memcpy(ops + pos + 1, client_ops[c] + pos, sizeof(qop) * (size_t)(client_nops[c] - pos));
 		client_ops[c] = ops; client_nops[c]++;
 	}
+	// the retarget itself: somewhere in the middle of one client's program (can be switched off like any operation)
+	for (int i = 0; i < nq; i++) if (Q[i].retarget_to >= 0) {
+		int c = (int)g_n((uint32_t)nclients);
+		qop *ops = xzalloc(sizeof(qop) * (size_t)(client_nops[c] + 1));
+		int pos = (int)g_n((uint32_t)client_nops[c] + 1);
+		memcpy(ops, client_ops[c], sizeof(qop) * (size_t)pos);
+		qop *a = &ops[pos]; memset(a, 0, sizeof *a);
+		a->idx = next_op_idx++; a->kind = OP_RETARGET; a->q = i; a->wait_item = -1; a->item = -1;
+		memcpy(ops + pos + 1, client_ops[c] + pos, sizeof(qop) * (size_t)(client_nops[c] - pos));
+		client_ops[c] = ops; client_nops[c]++;
+	}
 	if (G->poolblock) {
 		// every pool thread blocked inside an item that waits for a later item of the same global queue
 		int gq = -1;
@@ -276,6 +306,7 @@ static void render_ops(qop *ops, int n, int ind) {
 		if (op->kind == OP_PAUSE) h_sample(" %dus", op->depth);
 		else if (op->kind == OP_SUSPEND) h_sample("(q%d) x%d resume=%s", op->q, op->depth, op->body_arg == 1 ? "async" : "inline");
 		else if (op->kind == OP_ACTIVATE) h_sample("(q%d)", op->q);
+		else if (op->kind == OP_RETARGET) h_sample("(q%d -> q%d)", op->q, Q[op->q].retarget_to);
 		else if (op->kind == OP_APPLY) h_sample("(%d, %s%d) items %d..%s", op->apply_n, op->apply_auto ? "AUTO/q" : "q", op->q, op->item, op->body == B_NEST ? " body=nest(iteration 0)" : "");
 		else h_sample("%s(q%d) item %d body=%s%s", op->form == 2 ? "[BARRIER block object via the plain call]" : op->form == 3 ? "[block object]" : op->form ? "" : "_f", op->q, op->item,
 			op->body == B_EMPTY ? "empty" : op->body == B_YIELD ? "yield" : op->body == B_SLEEP ? "sleep" : op->body == B_NEST ? "nest" : "wait-later",
@@ -292,6 +323,7 @@ static void render_program(void) {
 		if (Q[i].target >= 0) h_sample("->q%d", Q[i].target);
 		if (Q[i].kind == QK_GLOBAL) h_sample("(prio %d)", Q[i].gprio);
 		if (Q[i].inactive) h_sample("[inactive]");
+		if (Q[i].retarget_to >= 0) h_sample("[retargeted to q%d during the run]", Q[i].retarget_to);
 		if (Q[i].width) h_sample("[width %d]", Q[i].width);
 	}
 	h_sample("\n");
@@ -314,6 +346,8 @@ static void create_queues(void) {
 				// retarget while inactive: created on the default root, then moved
 				n->q = dispatch_queue_create(n->label, a);
 				dispatch_set_target_queue(n->q, tq);
+			} else if (n->retarget_to >= 0) {
+				n->q = dispatch_queue_create(n->label, a);   // only such queues may change their target once active
 			} else {
 				n->q = dispatch_queue_create_with_target(n->label, a, tq);
 			}
@@ -411,19 +445,19 @@ static void item_begin(qitem *it) {
 			h_viol("barrier-overlap", "barrier item %d started on concurrent q%d while %d other item(s) were running (last %d)", it->id, it->q, qn->running, qn->last_item);
 	}
 	// C03: hierarchy exclusion
-	if ((G->oracles & O_HIER) && qn->dom >= 0 && Q[qn->dom].dom_running > 0)
-		h_viol("hierarchy-overlap", "item %d (q%d) started while item %d of the same hierarchy (bottom q%d, %s) was running", it->id, it->q, Q[qn->dom].dom_last_item, qn->dom, qknames[Q[qn->dom].kind]);
+	if ((G->oracles & O_HIER) && it->dom >= 0 && Q[it->dom].dom_running > 0)
+		h_viol("hierarchy-overlap", "item %d (q%d) started while item %d of the same hierarchy (bottom q%d, %s) was running", it->id, it->q, Q[it->dom].dom_last_item, it->dom, qknames[Q[it->dom].kind]);
 	if (qn->kind == QK_CONC && !it->barrier && qn->running > 0) { if (qn->running + 1 > max_readers_overlap) max_readers_overlap = qn->running + 1; }
 	it->prev_on_queue = qn->last_item;
 	qn->running++; if (it->barrier) qn->running_barrier++;
 	qn->last_item = it->id;
-	if (qn->dom >= 0) { Q[qn->dom].dom_running++; Q[qn->dom].dom_last_item = it->id; }
+	if (it->dom >= 0) { Q[it->dom].dom_running++; Q[it->dom].dom_last_item = it->id; }
 	check_specific(it);
 }
 static void item_end(qitem *it) {
 	qnode *qn = &Q[it->q];
 	qn->running--; if (it->barrier) qn->running_barrier--;
-	if (qn->dom >= 0) Q[qn->dom].dom_running--;
+	if (it->dom >= 0) Q[it->dom].dom_running--;
 	it->result = pay(RC.seed, it->id, 7); it->result_ck = ~it->result;
 	it->end = h_stamp();
 	h_log("end item %d", it->id);
@@ -455,6 +489,13 @@ static void prep_item(qitem *it) {
 	it->payload[0] = pay(RC.seed, it->id, 0); it->payload[1] = pay(RC.seed, it->id, 1); it->payload[2] = pay(RC.seed, it->id, 2);
 	it->cksum = it->payload[0] ^ it->payload[1] ^ it->payload[2];
 	it->submitted = 1;
+	// C03: the hierarchy the item belongs to is the one its queue was in when it was submitted
+	qnode *qn = &Q[it->q];
+	it->dom = qn->dom;
+	if (qn->retarget_to >= 0 && qn->rt_call) {
+		int nd = Q[qn->retarget_to].dom >= 0 ? Q[qn->retarget_to].dom : qn->dom;
+		it->dom = qn->rt_ret ? nd : -2;   // submitted while dispatch_set_target_queue was in progress: either
+	}
 }
 
 static void do_resumes(qop *op) {
@@ -475,6 +516,14 @@ static void run_one(qop *op, int client, qitem *from) {
 	qnode *qn = &Q[op->q];
 	dispatch_queue_t q = qn->q;
 	if (op->kind == OP_PAUSE) { sim_sleep_ns((uint64_t)op->depth * USEC); return; }
+	if (op->kind == OP_RETARGET) {
+		qn->rt_call = h_stamp();
+		h_log("call set_target_queue q%d -> q%d", op->q, qn->retarget_to);
+		dispatch_set_target_queue(q, Q[qn->retarget_to].q);
+		qn->rt_ret = h_stamp();
+		h_log("ret set_target_queue q%d", op->q);
+		return;
+	}
 	if (op->kind == OP_ACTIVATE) {
 		qn->activated_call = 1; qn->activate_call_stamp = h_stamp();
 		h_log("call activate q%d", op->q);
